@@ -23,7 +23,7 @@ def describe(tier):
                    9 if tier == 'quick' else 12),
         'bounds': 'see rule',
         'assumptions': ['identifier bytes are DRBG values apart from the awkward members'],
-        'must_be_nonzero': ['blocks-roundtrip', 'parse-by-count', 'too-small-block-refused', 'compositions', 'bad-sum-refused', 'int-roundtrip', 'hex-db'],
+        'must_be_nonzero': ['blocks-roundtrip', 'parse-by-count', 'too-small-block-refused', 'compositions', 'bad-sum-refused', 'int-roundtrip', 'hex-db', 'hex-db-mixed-lengths'],
     }
 
 
@@ -322,6 +322,26 @@ def run_unit(p, tier, seed):
                         r.v(PROPERTY, 'database_utils', 'hexdb', 'identifier-length', case, n, sorted({len(x) for x in got}))
                     if bu.BytesConverter.convert_bytes(kw.encode('utf-8'), 'utf8') != kw:
                         r.v(PROPERTY, 'bytes_utils', 'hexdb', 'utf8-format', case, kw, 'differs')
+        # identifiers of DIFFERENT lengths in one list: every sequence of 1..4 lengths over {1,2,3,4,6,16} bytes
+        import itertools as _it
+        for k in range(1, 5):
+            for lens_ in _it.product((1, 2, 3, 4, 6, 16), repeat=k):
+                ids = [g.randbytes(n).hex() for n in lens_]
+                db = {'w': list(ids), 'second': list(reversed(ids))}
+                case = {'identifier_bytes': list(lens_), 'mixed': True}
+                core.note_case(case)
+                r['evaluations'] += 1
+                r['transitions'] += 1
+                try:
+                    bdb = du.convert_database_keyword_to_bytes(json.loads(json.dumps(db)))
+                except Exception as e:
+                    r.v(PROPERTY, 'database_utils', 'hexdb-raises', 'mixed:%s:%s' % (core.exc_site(e), type(e).__name__), case, 'bytes database', core.exc_text(e))
+                    continue
+                r.count('hex-db-mixed-lengths')
+                for kw, hs in db.items():
+                    if bdb.get(kw.encode('utf-8')) != [bytes.fromhex(h) for h in hs]:
+                        r.v(PROPERTY, 'database_utils', 'hexdb', 'mixed-length-identifiers', case, hs, [x.hex() for x in bdb.get(kw.encode('utf-8'), [])])
+                        break
         try:
             bu.BytesConverter.convert_bytes(b'x', 'base64')
             r.v(PROPERTY, 'bytes_utils', 'contract', 'unknown-format-accepted', {'format': 'base64'}, 'ValueError', 'accepted')
